@@ -216,7 +216,9 @@ class Scheduler(BaseScheduler[Job, Callable[..., None]]):
         for job in jobs:
             job._calc_next_exec(ref_dt)  # pylint: disable=protected-access
             if not job.has_attempts_remaining:
-                self.delete_job(job)
+                # a callback may already have deleted the job (or cleared the scheduler)
+                with self.__jobs_lock:
+                    self.__jobs.discard(job)
 
         return n_jobs
 
